@@ -15,7 +15,7 @@ def run(ctx):
                 "class = (layout in, noise in, dtype, G class, NF, BW, gv configuration); non-trivial = the call returned")
     T = ctx.thorough
     r = ctx.tlc("Amplifier", "SPECIFICATION Spec\nINVARIANT AlwaysTwoPol\nINVARIANT GainOnSignal\nINVARIANT GainOnNoise\nINVARIANT OSNRNeverImproves\n"
-                "INVARIANT Emit\nCHECK_DEADLOCK FALSE\nCONSTANTS MaxLen = 2\n", workers=1, note="gain lattice: all inputs x G x ASE draws")
+                "INVARIANT Emit\nCHECK_DEADLOCK FALSE\nCONSTANTS MaxLen = 2\n", workers=1, note="gain lattice: all inputs x G x ASE draws", actions=["Amplify"])
     ctx.exhaustive = True
     import_repo()
     from opticomlib.devices import EDFA, BPF
